@@ -369,6 +369,9 @@ func runC04rest(c *Ctx, f *ssa.Function, keyRet *ssa.Return) {
 	checkRefreshOnEarlyCopy(c)
 
 	// ---------------------------------------------------------------- R3
+	c.rule("R5", "the DNSSEC-relevant flags in the key are the client's: the DO bit the key builder sees is the one the client sent", 1)
+	checkClientDoInKey(c)
+
 	c.rule("R3", "lookup and every store of one Exec use the same key value; backend maps are keyed by the key itself", 3)
 	get := c.fn(relCachePlugin, "", "getRespFromCache")
 	save := c.fn(relCachePlugin, "", "saveRespToCache")
@@ -495,6 +498,8 @@ func runC04rest(c *Ctx, f *ssa.Function, keyRet *ssa.Return) {
 	}
 	// ... and the dump writer pairs each key with that entry's own answer
 	checkDumpWriterPairing(c)
+	// ... and Exec / the lazy refresh store a response only under the key of the question it answers
+	checkStoreAnswersQuestion(c)
 	// shard maps are Go maps keyed by K: Lookup/MapUpdate use the key parameter itself
 	for _, name := range []string{"get", "set"} {
 		sf := p.Func("pkg/concurrent_map", "shard", name)
